@@ -16,7 +16,8 @@ inline const char *rkname(int k) {
   return n[k];
 }
 
-// random access wrapper that is not a pointer
+// random access iterator that is neither a pointer nor contiguous: it walks over every second slot of an array (the slots in between hold
+// junk values), so code that takes &*first for a block copy reads the wrong elements
 template <class E>
 struct RaIt {
   typedef std::random_access_iterator_tag iterator_category;
@@ -29,17 +30,17 @@ struct RaIt {
   explicit RaIt(const E *q) : p(q) {}
   reference operator*() const { return *p; }
   pointer operator->() const { return p; }
-  reference operator[](difference_type i) const { return p[i]; }
-  RaIt &operator++() { ++p; return *this; }
-  RaIt operator++(int) { RaIt t(*this); ++p; return t; }
-  RaIt &operator--() { --p; return *this; }
-  RaIt operator--(int) { RaIt t(*this); --p; return t; }
-  RaIt &operator+=(difference_type d) { p += d; return *this; }
-  RaIt &operator-=(difference_type d) { p -= d; return *this; }
-  RaIt operator+(difference_type d) const { return RaIt(p + d); }
-  RaIt operator-(difference_type d) const { return RaIt(p - d); }
-  friend RaIt operator+(difference_type d, RaIt i) { return RaIt(i.p + d); }
-  difference_type operator-(const RaIt &o) const { return p - o.p; }
+  reference operator[](difference_type i) const { return p[2 * i]; }
+  RaIt &operator++() { p += 2; return *this; }
+  RaIt operator++(int) { RaIt t(*this); p += 2; return t; }
+  RaIt &operator--() { p -= 2; return *this; }
+  RaIt operator--(int) { RaIt t(*this); p -= 2; return t; }
+  RaIt &operator+=(difference_type d) { p += 2 * d; return *this; }
+  RaIt &operator-=(difference_type d) { p -= 2 * d; return *this; }
+  RaIt operator+(difference_type d) const { return RaIt(p + 2 * d); }
+  RaIt operator-(difference_type d) const { return RaIt(p - 2 * d); }
+  friend RaIt operator+(difference_type d, RaIt i) { return RaIt(i.p + 2 * d); }
+  difference_type operator-(const RaIt &o) const { return (p - o.p) / 2; }
   bool operator==(const RaIt &o) const { return p == o.p; }
   bool operator!=(const RaIt &o) const { return p != o.p; }
   bool operator<(const RaIt &o) const { return p < o.p; }
@@ -128,7 +129,16 @@ void with_range(int kind, const std::vector<Val> &vals, F &&f) {
       if (kind == RK_PTR) {
         f(b, b + vals.size());
       } else if (kind == RK_RA) {
-        f(RaIt<E>(b), RaIt<E>(b + vals.size()));
+        std::vector<E> strided;
+        {
+          MonScope m;
+          strided.reserve(2 * vals.size() + 1);
+          for (size_t i = 0; i < vals.size(); ++i) { strided.emplace_back(Mk<E>::make(vals[i])); strided.emplace_back(Mk<E>::make(Val(-777, 0))); }
+        }
+        const E *sb = strided.data();
+        f(RaIt<E>(sb), RaIt<E>(sb + 2 * vals.size()));
+        MonScope m;
+        strided.clear();
       } else if (kind == RK_MOVE) {
         E *mb = a.data();
         f(std::make_move_iterator(mb), std::make_move_iterator(mb + vals.size()));
